@@ -1171,7 +1171,11 @@ E2E_REDIRECT = [(rb"^/redir/([^?]*)", b"http://other.example/$1${qsa}"),
 E2E_COND = rb"^(\w+)\.cond\.example(?::\d+)?$"
 E2E_COND_REDIRECT = [(rb"^/c/(.*)$", b"/host/%1/$1"), (rb"^/c0/(.*)", b"/%0/$1")]
 E2E_ALIAS = [(b"/al/", b"@ROOT@/aliased/"), (b"/al2", b"@ROOT@/aliased2")]
-E2E_FILES = ["files/a.txt", "files/b/c.txt", "files/A.TXT", "files/q.txt", "files/secret.txt", "files/xa.txt",
+# a condition that the parser stores as a plain suffix compare (metacharacter-free, end-anchored) whose block uses %0:
+# config_finalize turns it back into the regex as written; the rule applies to paths ENDING in the literal only
+E2E_URLCOND = rb"-v1$"
+E2E_URLCOND_REDIRECT = [(rb"^/lit/(.*)$", b"/legacy%0/$1")]
+E2E_FILES = ["lit/doc-v1-notes.txt", "lit/a-v1x", "files/a.txt", "files/b/c.txt", "files/A.TXT", "files/q.txt", "files/secret.txt", "files/xa.txt",
              "strip/z.txt", "rep/a/a.txt", "loop/a.txt", "blank/x", "once/a.txt"]
 E2E_ALIASED = ["aliased/x.txt", "aliased/sub/y.txt", "aliased2/z.txt", "aliased2x.txt"]
 
@@ -1182,9 +1186,10 @@ def conf_list(rules):
 
 def e2e_conf_a():
     return ('url.rewrite-once = ( %s )\nurl.rewrite-repeat = ( %s )\nurl.redirect = ( %s )\n'
-            '$HTTP["host"] =~ "%s" {\n  url.redirect = ( %s )\n}\nalias.url = ( %s )\n' % (
+            '$HTTP["host"] =~ "%s" {\n  url.redirect = ( %s )\n}\n$HTTP["url"] =~ "%s" {\n  url.redirect = ( %s )\n}\n'
+            'alias.url = ( %s )\n' % (
                 conf_list(E2E_ONCE), conf_list(E2E_REPEAT), conf_list(E2E_REDIRECT), E2E_COND.decode(),
-                conf_list(E2E_COND_REDIRECT), conf_list(E2E_ALIAS)))
+                conf_list(E2E_COND_REDIRECT), E2E_URLCOND.decode(), conf_list(E2E_URLCOND_REDIRECT), conf_list(E2E_ALIAS)))
 
 
 class ReTable:
@@ -1220,7 +1225,14 @@ def e2e_expect_a(root, docroot, port, host, target, files):
     q = target.find(b"?")
     url = Url(b"http", authority, port, target, None if q < 0 else target[q + 1:])
     m = re.match(E2E_COND.decode(), authority.decode())
-    if m:
+    upath = target if q < 0 else target[:q]
+    mu = re.search(E2E_URLCOND, upath)
+    if mu and b"%" in upath:
+        raise Abstain          # the condition sees the decoded path
+    if mu:
+        # the url block stands after the host block: where both hold, its url.redirect is the one in force
+        rules, cond = E2E_URLCOND_REDIRECT, Caps(upath, [mu.span(0)])
+    elif m:
         rules, cond = E2E_COND_REDIRECT, Caps(authority, [m.span(k) for k in range(2)])
     else:
         rules, cond = E2E_REDIRECT, None
@@ -1241,10 +1253,11 @@ def e2e_expect_a(root, docroot, port, host, target, files):
 
 
 E2E_SEGS = [b"a.txt", b"b/c.txt", b"A.TXT", b"q.txt", b"secret.txt", b"nope.txt", b"x.txt", b"sub/y.txt", b"z.txt",
-            b"B/C.TXT", b"a~b!c", b"x%20y", b"Mixed.Case", b"xa.txt", b"QUJD", b"aGVsbG8", b"n0t*b64"]
+            b"B/C.TXT", b"a~b!c", b"x%20y", b"Mixed.Case", b"xa.txt", b"QUJD", b"aGVsbG8", b"n0t*b64",
+            b"doc-v1", b"doc-v1-notes.txt", b"a-v1x", b"-v1"]
 E2E_PREFIXES = [b"/files/", b"/once/", b"/both/", b"/blank/", b"/rep/a/", b"/rep/b/", b"/loop/", b"/strip/p/q/",
                 b"/strip/", b"/low/", b"/up/", b"/blow/", b"/bup/", b"/rhost/", b"/q/", b"/bad/", b"/redir/", b"/rscheme/", b"/rb64/", b"/rpath/",
-                b"/resc/", b"/c/", b"/c0/", b"/al/", b"/al2/", b"/al2", b"/al", b"/other/", b"/blank/x", b"/al2../"]
+                b"/resc/", b"/c/", b"/c0/", b"/lit/", b"/lit/", b"/al/", b"/al2/", b"/al2", b"/al", b"/other/", b"/blank/x", b"/al2../"]
 E2E_HOSTS = [b"localhost", b"www.cond.example", b"Api.Cond.Example:8080", b"cond.example", b"x.y.cond.example", b"h.example:81"]
 
 
